@@ -27,8 +27,14 @@ func symDiskTree(root string, maxb int) {
 		return x
 	}
 	m.MkDir(root+"/d", perm(), id("uid"), id("gid"), chooseMtime("mtime"))
+	if v.Param("X", 0) != 0 && v.Bool("xattr-d") {
+		m.SetXattr(root+"/d", "user.d", v.Bytes("xd", 1))
+	}
 	if v.Bool("has-d/f") {
 		m.MkFile(root+"/d/f", v.Bytes("data", v.Choose("size", maxb+1)), perm(), id("uid"), id("gid"), chooseMtime("mtime"))
+		if v.Param("X", 0) != 0 && v.Bool("xattr-f") {
+			m.SetXattr(root+"/d/f", "user.f", v.Bytes("xf", 1))
+		}
 		if sel&1 != 0 && v.Bool("has-h") {
 			m.MkLink(root+"/d/f", root+"/h")
 		}
@@ -44,7 +50,7 @@ func symDiskTree(root string, maxb int) {
 		m.MkDir(root+"/e", perm(), id("uid"), id("gid"), chooseMtime("mtime"))
 	}
 	if sel&2 != 0 && v.Bool("has-l") {
-		m.MkSymlink(root+"/l", "d/f", id("uid"), id("gid"), chooseMtime("mtime"))
+		m.MkSymlink(root+"/l", []string{"d/f", "d"}[v.Choose("target-l", 2)], id("uid"), id("gid"), chooseMtime("mtime"))
 	}
 	cp := 0
 	if sel&4 != 0 {
@@ -75,7 +81,29 @@ func symDirtyDest(dest string) {
 		m.MkSymlink(dest+"/e", "nowhere", 7, 7, 5)
 		m.MkDir(dest+"/d", 0700, 7, 7, 5)
 		m.MkFile(dest+"/d/f", []byte("old"), 0600, 7, 7, 5)
+	case 5:
+		// a directory (with a child named like an entry of d) where the source has the symlink l
+		m.MkDir(dest+"/l", 0700, 7, 7, 5)
+		m.MkFile(dest+"/l/f", []byte("old"), 0600, 7, 7, 5)
 	}
+}
+
+func xattrsEqual(a, b *m.Entry) bool {
+	if len(a.XKeys) != len(b.XKeys) {
+		return false
+	}
+	ok := true
+	for i, k := range a.XKeys {
+		found := false
+		for j, k2 := range b.XKeys {
+			if k == k2 {
+				found = true
+				ok = v.And(ok, string(a.XVals[i]) == string(b.XVals[j]))
+			}
+		}
+		ok = v.And(ok, found)
+	}
+	return ok
 }
 
 func sameGroup(snap []m.Entry, a, b string) bool {
@@ -120,6 +148,9 @@ func specTreesEqual(src, dst []m.Entry, createdDir func(string) bool) {
 		}
 		if s.Kind != m.KDir || createdDir(s.Path) {
 			v.Assert(d.Mtime == s.Mtime, "mtimes are equal (non-directories and created directories)")
+		}
+		if s.Kind == m.KFile || (s.Kind == m.KDir && createdDir(s.Path)) {
+			v.Assert(xattrsEqual(s, d), "xattrs of regular files and of created directories are equal")
 		}
 		for k := range src {
 			if k != i && src[k].Kind == m.KFile && s.Kind == m.KFile {
